@@ -31,7 +31,7 @@ Proto == Traces[tr].proto = 1
 E == Ev[l]
 
 Init == tr \in 1..Len(Traces) /\ l = 1 /\ guards = {} /\ ret = <<>> /\ freed = {}
-Step(c) == l <= Len(Ev) /\ c /\ l' = l + 1 /\ UNCHANGED tr
+Step(c) == l <= Len(Ev) /\ l' = l + 1 /\ UNCHANGED tr /\ c
 
 GEnter == Step(E.e = "genter") /\ guards' = guards \cup {E.g} /\ UNCHANGED <<ret, freed>>
 GLeave == Step(E.e = "gleave") /\ guards' = guards \ {E.g} /\ UNCHANGED <<ret, freed>>
